@@ -63,6 +63,8 @@ class Workflow:
         self.queues = []      # [{"name","limit","members"}]
         self.rhn = 1
         self.extra = {}
+        self.xtrigs = {}      # label -> {"call": "echo(...)", "intvl": secs}
+        self.xlines = []      # [{"rec": i, "xt": label, "rhs": task}]
 
     # ---------------------------------------------------------------- rendering: flow.cylc
     def _node(self, a):
@@ -111,6 +113,10 @@ class Workflow:
             out.append(f"    stop after cycle point = {self.stop}")
         if extra_sched:
             out.append(extra_sched)
+        if self.xtrigs:
+            out.append("    [[xtriggers]]")
+            for lab, x in self.xtrigs.items():
+                out.append(f"        {lab} = {x['call']}:PT{x['intvl']}S")
         if self.queues:
             out.append("    [[queues]]")
             for q in self.queues:
@@ -119,9 +125,11 @@ class Workflow:
         out.append("    [[graph]]")
         for i, r in enumerate(self.recs):
             ls = [l for l in self.lines if l["rec"] == i]
-            if not ls:
+            if not ls and not any(x["rec"] == i for x in self.xlines):
                 continue
             out.append(f"        {r['text']} = \"\"\"")
+            for xl in [x for x in self.xlines if x["rec"] == i]:
+                out.append(f"            @{xl['xt']} => " + self._rhs({"rhs": xl["rhs"], "suicide": False}))
             for l in ls:
                 if l["lhs"] is None:
                     out.append("            " + self._rhs(l))
@@ -181,7 +189,7 @@ class Workflow:
         lines = ", ".join(
             '[rec |-> %d, lhs |-> %s, rhs |-> %s, suicide |-> %s]'
             % (l["rec"] + 1, self._tla_expr(l["lhs"]), tla(l["rhs"]), tla(bool(l["suicide"])))
-            for l in self.lines)
+            for l in self.lines + [{"rec": x["rec"], "lhs": None, "rhs": x["rhs"], "suicide": False} for x in self.xlines])
         recs = ", ".join(tla(set(r["pts"])) for r in self.recs)
         queues = ", ".join('[name |-> %s, limit |-> %d, members |-> %s]'
                            % (tla(q["name"]), q["limit"], tla(set(q["members"]))) for q in self.queues)
@@ -196,6 +204,8 @@ class Workflow:
             "sretry": tla_fn({t: self.sretry.get(t, 0) for t in self.tasks}),
             "queues": "<<" + queues + ">>", "rhkind": '"count"', "rhn": str(self.rhn),
             "hassuicide": tla(any(l["suicide"] for l in self.lines)),
+            "xtintvl": tla_fn({lab: x["intvl"] for lab, x in self.xtrigs.items()}),
+            "hasxt": tla(bool(self.xtrigs)),
         }
         return "[" + ", ".join(f"{k} |-> {v}" for k, v in f.items()) + "]"
 
@@ -209,7 +219,7 @@ class Workflow:
 # ------------------------------------------------------------------------ generation
 def generate(rng: random.Random, *, features=None) -> Workflow:
     f = dict(max_tasks=4, max_fcp=4, retries=True, queues=True, sequential=True, custom=True, optional=True,
-             future=True, absolute=False, suicide=False, submit_fail=True)
+             future=True, absolute=False, suicide=False, submit_fail=True, xtriggers=False)
     f.update(features or {})
     w = Workflow()
     w.fcp = rng.randint(2, f["max_fcp"])
@@ -289,8 +299,13 @@ def generate(rng: random.Random, *, features=None) -> Workflow:
                       for a in atoms_of(l["lhs"])) for l in w.lines)
         if not has_seq:
             w.lines.append({"rec": 0, "lhs": None, "rhs": t, "suicide": False})
+    if f["xtriggers"]:
+        w.xtrigs["xa"] = {"call": "echo(1, succeed=True)", "intvl": rng.choice([2, 3, 5])}
+        w.xtrigs["xb"] = {"call": "echo(cp=%(point)s, succeed=True)", "intvl": rng.choice([2, 4])}
+        for _ in range(rng.randint(1, 3)):
+            w.xlines.append({"rec": rng.randrange(len(w.recs)), "xt": rng.choice(["xa", "xb"]), "rhs": rng.choice(w.tasks)})
     # optional success only exists if the graph text says so somewhere ("t?" or "t:fail?")
-    marked = set()
+    marked = {x["rhs"] for x in w.xlines}
     for l in w.lines:
         if not l["suicide"]:
             marked.add(l["rhs"])
